@@ -416,7 +416,7 @@ def _reg(draw, pool, pool_vals, names, nl):
         "g": g,
         "out": bool(draw(_I(0, 1))),
         "exc": _pick(draw, [None, None, *EXCS]) if draw(_I(0, 1)) else None,
-        "once": draw(_I(0, 7)) == 0,
+        "once": draw(_I(0, 15)) == 0,
     }
 
 
